@@ -114,6 +114,23 @@ func (s *Spec) GenMembers(ch Chooser, members []*Member, o GenOpts, depth int, e
 			include[i] = o.OptionalOneIn > 0 && ch.Intn(o.OptionalOneIn) == 0
 		}
 	}
+	// conditionally required: once any field of an optional component is present, the fields
+	// required within that component are present too
+	for changed := true; changed; {
+		changed = false
+		present := map[string]bool{}
+		for i, m := range members {
+			if include[i] && m.OptComp != "" {
+				present[m.OptComp] = true
+			}
+		}
+		for i, m := range members {
+			if !include[i] && m.ReqInComp && present[m.OptComp] && !(m.IsGroup && depth >= o.MaxDepth+2) {
+				include[i] = true
+				changed = true
+			}
+		}
+	}
 	// DATA needs its LENGTH (the member right before it) and vice versa
 	for i, m := range members {
 		if (m.Type == "DATA" || m.Type == "XMLDATA") && i > 0 && members[i-1].Type == "LENGTH" {
